@@ -2,6 +2,7 @@
    case: "<id> key=value ...".  Each channel is served by extracted model functions. *)
 let channels : (string * ((string * string) list -> string)) list = [
   ("art", Chan_art.run);
+  ("clistep", Chan_art.run_step);
   ("flags", Chan_flags.run_flags);
   ("jprops", Chan_flags.run_jprops);
 ]
